@@ -237,7 +237,6 @@ int main(int argc, char **argv)
 	vx_count("states", n_states);
 	vx_count("transitions", n_states);
 	vx_count("traces", n_states);		/* every step of the real code is compared with the reference */
-	vx_count("distinct", n_states);		/* each state is enumerated exactly once */
 	vx_count("states_where_carta_fold_exceeds_modulus", n_fold);
 	vx_count("states_where_carta_fold_fits", n_states - n_fold);
 	vx_count("mismatch_returned_value", n_bad_value);
